@@ -43,5 +43,9 @@ Proof.
   - (* UDec *)
     pose proof I as I0. open_inv I. specialize (Irc A). rewrite drop_ref_alive by assumption.
     match goal with |- Inv (set_user _ _ ?u') => upd Hj u' end; use_dropped s B; pre; mk_inv; go.
+  - (* UAsg *)
+    pose proof I as I0. open_inv I. specialize (Irc A).
+    destruct (ukd u) eqn:KD; cbn [first_action];
+    match goal with |- Inv (set_user _ _ ?u') => upd Hj u' end; pre; mk_inv; go.
 Qed.
 
